@@ -288,7 +288,7 @@ CHECKS["C03"] = {
     "units": [
         {"pkg": ".", "run": "^TestVerif_C03_", Q: {"timeout": 900}, T: {"timeout": 3400, "shards": 12}},
     ],
-    "mandatory_labels": {"all": ["forgery/stopped-by-signature-check-only", "forgery/replayed-signature", "store/account", "store/multimember", "store/forgery-appended", "store/forgery-concurrent-branch", "store/forgery-covered-by-a-genuine-entry",
+    "mandatory_labels": {"all": ["forgery/stopped-by-signature-check-only", "forgery/replayed-signature", "store/account", "store/multimember", "store/forgery-appended", "store/forgery-concurrent-branch", "store/forgery-covered-by-a-genuine-entry", "unknown-type-sweep",
                                  "types/EventTypeGroupMemberDeviceAdded", "types/EventTypeMultiMemberGroupInitialMemberAnnounced", "types/EventTypeAccountVerifiedCredentialRegistered"]},
 }
 
@@ -445,7 +445,7 @@ for _k, _v in _ADDED5.items():
 _ADDED6 = {
     "C01": "Single transient datastore write or read failures during opens (an honest message refused for good because of one is a violation). Message-store layer: a device sends a run of messages through its own message store (reading each back before the next), a member with a key window of 2-5 receives them in order and must be handed all of them with the sender's counters.",
     "C02": "Every third message of a sender has no content at all. `TestVerif_C02_TransientWriteFailure`: one failing write while a message is opened; the next message is opened first, then the failed one again (it is still inside the window).",
-    "C03": "Forged entries also arrive by replication from a branch concurrent with the victim's history (a replica that merged nothing, Lamport time 1), alone or covered by a genuine entry of the forger in the same batch.",
+    "C03": "Forged entries also arrive by replication from a branch concurrent with the victim's history (a replica that merged nothing, Lamport time 1), alone or covered by a genuine entry of the forger in the same batch. `TestVerif_C03_UnknownTypeNumbers`: every undefined event type number from -8 to 2200 (and some large ones) under a payload and signature genuine for each defined type.",
     "C04": "Controlled schedules (DFS + rapid) of overlapping index passes of the writer's task and the replication task over a log that grows meanwhile (instrumented index; the final state must be the state of the entries held). Scripted two-writer histories (two devices writing different values about one subject, one going on without having seen the other) run before the generated ones.",
     "C05": "Single transient datastore write or read failures while an announcement is registered, also a re-delivered one (an announced key must be usable). Distribution half: one device may deactivate the group after its activation and activate it again at the end (others join meanwhile). `TestVerif_C05_OutageAtFirstAnnouncement`: a device cannot read its chain-key record while a member's first device is announced; after the recovery the member's second device is announced and both must end up with the key.",
     "C06": "Recorded responder frames replayed to a requester that asks for the same account again. Signatures ground against small-order keys. Two or three honest sessions between three accounts alive at once in one process, their frames delivered one at a time in generated interleavings (crossing requests included): all must complete.",
